@@ -18,6 +18,9 @@ pub(crate) use self::fetch::Fetch;
 mod load;
 pub(crate) use self::load::Load;
 
+#[cfg(bgpfu_verif)]
+pub(crate) mod verif;
+
 #[derive(Debug, PartialEq, Eq)]
 pub(crate) struct Policies<T> {
     map: HashMap<Name, T>,
